@@ -801,14 +801,7 @@ func (e *Env) call(n *CCall) Val {
 		}
 		if k < 1 || k > len(recs) {
 			// no such call on this path: an arbitrary value of the right type (nothing can be proved about it)
-			var sig *types.Signature
-			for _, pi := range e.w.pkgs {
-				for _, f := range pi.funcs {
-					if logKey(f.String()) == cs.V {
-						sig = f.Signature
-					}
-				}
-			}
+			sig := e.w.sigByLogKey(cs.V)
 			if sig == nil {
 				cfail("%s: there is no call number %d to %s on this path (%d made) and no such function in the repository", n.Fun, k, cs.V, len(recs))
 			}
